@@ -50,9 +50,16 @@ SUITE = {"name": "merge", "pkg": "internal/db", "files": ["zz_verif_env.go", "zz
          "jobs": merge_jobs, "overrides": OVR, "redirects": REDIR, "unwind": 40, "witnesses": {"quick": 12, "thorough": 32},
          "timeout": {"quick": 2400, "thorough": 10000}}
 
+def nonce_jobs(tier):
+    return [{"id": "O4.counter-nonce", "func": "VerifH_C02_CounterNonce", "conf": {}, "_obligation": "O4", "_covers": ["made"]}]
+
+
+NONCE_SUITE = {"name": "nonce", "pkg": "internal/core/crdt", "files": ["zz_verif_crdt.go", "zz_verif_nonce.go"], "common": ["intrinsics", "kvmodel"],
+               "jobs": nonce_jobs, "overrides": OVR, "redirects": {"(github.com/sourcenetwork/defradb/client.FieldValue).Bytes": "nFieldValueBytes"}, "unwind": 14}
+
 PROPERTY = {
     "id": "C02",
-    "suites": [SUITE],
+    "suites": [SUITE, NONCE_SUITE],
     "bounds": {"quick": {"commits": 3, "parents per commit": "<=2", "deliveries (incl. redelivery)": 3, "fields per commit": 1, "hash orders": "all n!"},
                "thorough": {"commits": 4, "parents per commit": "<=2", "deliveries (incl. redelivery)": 3, "fields per commit": 1, "hash orders": "all n!"},
                "fixed histories": "two chains 3+2, two chains joined by a merge, diamond with tail and late fork, three branches, double diamond (6 commits, 3-4 deliveries, symbolic increments), long and short branch joined with a late fork (8 commits, 2-3 deliveries, increments fixed to powers of three); identity and reversed hash order"},
